@@ -194,6 +194,36 @@ theorem powFix_sound (body : Prog) : ∀ (fuel : Nat) {H P : List Itv}, powFix b
             exact ⟨H', fun l hl => h1 l (EnvIn_of_itvsLe hl hw), h2, h3⟩
           · cases h
 
+theorem absPow_sound (body : Prog) (pre : List Itv) {x P : List Itv} (h : absPow body pre x = some P) :
+    ∃ H', (∀ l, EnvIn l x → EnvIn l H') ∧ absK body H' = some P ∧ itvsLe P H' = true := by
+  unfold absPow at h
+  split at h
+  · rename_i hx
+    cases hk : absK body pre with
+    | none => rw [hk] at h; exact powFix_sound body _ h
+    | some Q =>
+      rw [hk] at h
+      simp only at h
+      split at h
+      · rename_i hQ
+        simp only [Option.some.injEq] at h
+        subst h
+        exact ⟨pre, fun l hl => EnvIn_of_itvsLe hl hx, hk, hQ⟩
+      · exact powFix_sound body _ h
+  · exact powFix_sound body _ h
+
+theorem absEnc_sound {p : Prog} {pre x : List Itv} {l : List Nat} (h : absEnc p pre x = true) (hl : EnvIn l x) :
+    p.evalC l = some (p.evalW l) := by
+  unfold absEnc at h
+  split at h
+  · rename_i hx
+    cases hk : absK p pre with
+    | none => rw [hk] at h; cases h
+    | some Q => exact (absK_sound hk (EnvIn_of_itvsLe hl hx)).1
+  · cases hk : absK p x with
+    | none => rw [hk] at h; cases h
+    | some Q => exact (absK_sound hk hl).1
+
 /-- iterating a body whose analysis from `H` lands inside `H` again -/
 theorem iter_sound {body : Prog} {H P : List Itv} (hk : absK body H = some P) (hle : itvsLe P H = true) :
     ∀ (k : Nat) (l : List Nat), EnvIn l H →
@@ -259,45 +289,41 @@ theorem rel_un (ps : List Prog) {a : AVal} {a' : PVal} (ha : R a a') :
     simp only [ha1, concUn, h1]
   | none, hI => simp [absUn] at hI
 
-theorem rel_pred1 (p : Prog) (f : List Nat → Nat) (hf : ∀ bs, f bs < 2) {a : AVal} {a' : PVal} (ha : R a a') :
-    R (absPred1 p a) (concPred1 p f a'.1, [f (p.evalW a'.2)]) := by
+theorem rel_pred1 (p : Prog) (pre : List Itv) (f : List Nat → Nat) (hf : ∀ bs, f bs < 2) {a : AVal} {a' : PVal}
+    (ha : R a a') : R (absPred1 p pre a) (concPred1 p f a'.1, [f (p.evalW a'.2)]) := by
   intro I hI
   match a, hI with
   | some x, hI =>
     obtain ⟨ha1, ha2⟩ := ha x rfl
     simp only [absPred1] at hI
-    cases hk : absK p x with
-    | none => rw [hk] at hI; cases hI
-    | some Q =>
-      rw [hk] at hI
+    split at hI
+    · rename_i he
       simp only [Option.some.injEq] at hI
       subst hI
-      obtain ⟨h1, _⟩ := absK_sound hk ha2
+      have h1 := absEnc_sound he ha2
       refine ⟨?_, EnvIn_choice (hf _)⟩
       simp only [ha1, concPred1, h1, Option.map_some]
+    · cases hI
   | none, hI => simp [absPred1] at hI
 
-theorem rel_pred2 (p : Prog) {a b : AVal} {a' b' : PVal} (ha : R a a') (hb : R b b') :
-    R (absPred2 p a b) (concPred2 p a'.1 b'.1, [b2n (p.evalW a'.2 == p.evalW b'.2)]) := by
+theorem rel_pred2 (p : Prog) (pre : List Itv) {a b : AVal} {a' b' : PVal} (ha : R a a') (hb : R b b') :
+    R (absPred2 p pre a b) (concPred2 p a'.1 b'.1, [b2n (p.evalW a'.2 == p.evalW b'.2)]) := by
   intro I hI
   match a, b, hI with
   | some x, some y, hI =>
     obtain ⟨ha1, ha2⟩ := ha x rfl
     obtain ⟨hb1, hb2⟩ := hb y rfl
     simp only [absPred2] at hI
-    cases hk : absK p x with
-    | none => rw [hk] at hI; cases hI
-    | some Q =>
-      cases hk' : absK p y with
-      | none => rw [hk, hk'] at hI; cases hI
-      | some Q' =>
-        rw [hk, hk'] at hI
-        simp only [Option.some.injEq] at hI
-        subst hI
-        obtain ⟨h1, _⟩ := absK_sound hk ha2
-        obtain ⟨h2, _⟩ := absK_sound hk' hb2
-        refine ⟨?_, EnvIn_choice (b2n_lt _)⟩
-        simp only [ha1, hb1, concPred2, h1, h2]
+    split at hI
+    · rename_i he
+      simp only [Bool.and_eq_true] at he
+      simp only [Option.some.injEq] at hI
+      subst hI
+      have h1 := absEnc_sound he.1 ha2
+      have h2 := absEnc_sound he.2 hb2
+      refine ⟨?_, EnvIn_choice (b2n_lt _)⟩
+      simp only [ha1, hb1, concPred2, h1, h2]
+    · cases hI
   | none, _, hI => simp [absPred2] at hI
   | some _, none, hI => simp [absPred2] at hI
 
@@ -400,7 +426,7 @@ theorem boundOps_rel (B : Backend) : FOps.Rel R (boundOps B) (prodOps (limbOps B
       split at hI
       · cases hI
       · rename_i hk
-        obtain ⟨H', h1, h2, h3⟩ := powFix_sound B.powBody powFuel hI
+        obtain ⟨H', h1, h2, h3⟩ := absPow_sound B.powBody B.powPre hI
         obtain ⟨k', rfl⟩ : ∃ k', k = k' + 1 := ⟨k - 1, by omega⟩
         obtain ⟨h4, h5⟩ := iter_sound h2 h3 k' _ (h1 _ ha2)
         refine ⟨?_, h5⟩
@@ -417,9 +443,9 @@ theorem boundOps_rel (B : Backend) : FOps.Rel R (boundOps B) (prodOps (limbOps B
     · show EnvIn ((limbOpsW B).const i) _
       simp only [limbOpsW, hl, List.getD_eq_getElem?_getD, Option.getD_some]
       exact EnvIn_point l
-  ctEq := fun ha hb => rel_pred2 B.asBytes ha hb
-  isNeg := fun ha => rel_pred1 B.asBytes negBit (fun _ => Nat.mod_lt _ (by decide)) ha
-  isZero := fun ha => rel_pred1 B.asBytes zeroBit (fun _ => b2n_lt _) ha
+  ctEq := fun ha hb => rel_pred2 B.asBytes B.asBytesPre ha hb
+  isNeg := fun ha => rel_pred1 B.asBytes B.asBytesPre negBit (fun _ => Nat.mod_lt _ (by decide)) ha
+  isZero := fun ha => rel_pred1 B.asBytes B.asBytesPre zeroBit (fun _ => b2n_lt _) ha
   cand := fun ha hb => rel_ch2 chAnd chAnd_lt ha hb
   cor := fun ha hb => rel_ch2 chOr chOr_lt ha hb
   cxor := fun ha hb => rel_ch2 chXor chXor_lt ha hb
